@@ -36,7 +36,8 @@ def PE.noPanic {α} (x : PE α) : Prop := x ≠ .error .panic
 
 /-- The loop `for i := 0; i < len(str); i++ { c := str[i]; … }` (byte-wise since the D13 repair;
     before it ranged by rune and dropped continuation bytes) with the builder `sb`, the flag `escaped` and
-    the parts so far.  `fuel` bounds the number of iterations (`str.length` suffices). -/
+    the parts so far.  `fuel` bounds the number of iterations; `str.length` suffices and extra fuel
+    changes nothing (theorems `splitEscLoop_fuel`, `splitEscLoop_len_suffices` in Proofs/ParseTotal.lean). -/
 def splitEscLoop (str : Bytes) (sep esc : UInt8) (preserveAll : Bool) :
     (fuel : Nat) → (i : Nat) → (sb : Bytes) → (escaped : Bool) → (parts : List Bytes) →
     PE (Bytes × List Bytes)
